@@ -613,6 +613,90 @@ def check_dict_rounding(ck, prog):
     ck.floor("C02-DICTROUND", 2)
 
 
+class _Lin:
+    """a*x + sum c_i * floor((x + b_i) / C_i) + d  over one unsigned variable x (no overflow considered)."""
+
+    def __init__(self, a=0, fl=None, d=0):
+        self.a, self.fl, self.d = a, dict(fl or {}), d
+
+    def norm(self):
+        fl, d = {}, self.d
+        for (b, C), c in self.fl.items():
+            d += c * (b // C)
+            k = (b % C, C)
+            fl[k] = fl.get(k, 0) + c
+        return (self.a, tuple(sorted((k, v) for k, v in fl.items() if v)), d)
+
+
+def _lin_eval(n, env, var):
+    n = ex.strip(n)
+    k = n.get("k")
+    if k in ("const", "enum"):
+        return _Lin(d=n["v"])
+    if k == "var":
+        if n["n"] == var:
+            return _Lin(a=1)
+        if n["n"] in env:
+            return env[n["n"]]
+        raise AnalysisBroken("unknown variable %s" % n["n"])
+    if k == "bin":
+        op = n["op"]
+        l, r = _lin_eval(n["l"], env, var), _lin_eval(n["r"], env, var)
+        if op in ("+", "-"):
+            sg = 1 if op == "+" else -1
+            fl = dict(l.fl)
+            for kk, c in r.fl.items():
+                fl[kk] = fl.get(kk, 0) + sg * c
+            return _Lin(l.a + sg * r.a, fl, l.d + sg * r.d)
+        if op == "*":
+            for (p_, q_) in ((l, r), (r, l)):
+                if q_.a == 0 and not q_.fl:
+                    return _Lin(p_.a * q_.d, {kk: c * q_.d for kk, c in p_.fl.items()}, p_.d * q_.d)
+        if op == "/" and r.a == 0 and not r.fl and r.d > 0 and l.a == 1 and not l.fl and l.d >= 0:
+            return _Lin(0, {(l.d, r.d): 1}, 0)
+    raise AnalysisBroken("expression form not handled: %s" % ex.show(n)[:60])
+
+
+def check_bound(ck, prog):
+    """lzma2_bound(n) is the exact size of n bytes stored as LZMA2 uncompressed chunks: n + 3 * ceil(n / 65536) + 1.
+    block_encode_uncompressed() stores it in the Block Header as Compressed Size and then writes one 3-byte header per
+    started 64 KiB chunk: if the count differs by one for some n, the header (and Index Unpadded Size) does not describe
+    the Block.  The return expression is brought to the normal form a*n + c*floor((n + b)/C) + d and compared."""
+    ck.rule("C02-BOUND", "lzma2_bound(n) = n + LZMA2_HEADER_UNCOMPRESSED * ceil(n / LZMA2_CHUNK_MAX) + 1 in normal form")
+    f = prog.fn("lzma2_bound", "block_buffer_encoder.c")
+    ck.saw_function(f)
+    var = [v["n"] for v in f.vars if v.get("param")][0]
+    env = {}
+    rets = []
+    for b, i, e in sorted(f.iter_elems(), key=lambda t: (ex.line(t[2]) or 0)):
+        e_ = ex.deref(e)
+        if e_.get("k") == "decl" and e_.get("init") is not None:
+            env[e_["n"]] = _lin_eval(e_["init"], env, var)
+        if e_.get("k") == "ret" and e_.get("e") is not None and ex.const_val(e_["e"]) is None:
+            rets.append(e_)
+    if len(rets) != 1:
+        raise AnalysisBroken("lzma2_bound: expected one non-constant return")
+    got = _lin_eval(rets[0]["e"], env, var).norm()
+    C = 1 << 16
+    ref = _Lin(1, {(C - 1, C): L2.HEADER_UNCOMPRESSED if hasattr(L2, "HEADER_UNCOMPRESSED") else 3}, 1).norm()
+    ok = got == ref
+    wit = None
+    if not ok:
+        def val(nf, x):
+            a, fl, d = nf
+            return a * x + sum(c * ((x + b) // CC) for ((b, CC), c) in fl) + d
+        for x in (0, 1, C - 1, C, C + 1, 2 * C, 2 * C + 1, 3 * C):
+            if val(got, x) != val(ref, x):
+                wit = (x, val(got, x), val(ref, x))
+                break
+    ck.ob("C02-BOUND", "lzma2_bound", ok, common.where(f, rets[0]),
+          "lzma2_bound: n + 3*floor((n + 65535)/65536) + 1" if ok else
+          "lzma2_bound(): normal form %s differs from n + 3*ceil(n/65536) + 1%s: the Compressed Size written by the "
+          "uncompressed-chunk fallback (and the Unpadded Size in the Index) does not match the chunks actually written" % (
+              got, (": for n = %d it gives %d, the chunks take %d bytes" % wit) if wit else ""),
+          key="BOUND:lzma2_bound")
+
+
 def run(ck):
     ck.explanation = (
         "Layout facts (constant-folded offsets, lengths, CRC ranges, flag bits, field order, byte order) are "
@@ -631,3 +715,7 @@ def run(ck):
     check_blkopt(ck, prog)
     check_uncomp_fallback(ck, prog)
     check_dict_rounding(ck, prog)
+    check_bound(ck, prog)
+    # the Check field of a Block is the CRC32/CRC64/SHA-256 of the data: the SHA-256 structure rules of C14
+    from . import C14
+    C14.check_sha(ck, prog)
